@@ -830,6 +830,26 @@ impl<'ast, 't> Visit<'ast> for Normaliser<'t> {
         syn::visit::visit_expr_macro(self, m);
     }
     fn visit_expr_binary(&mut self, b: &'ast syn::ExprBinary) {
+        // N19: `A[i] op= E` → `A[i] = A[i] op (E)` (Verus has no compound assignment through an index)
+        if (self.on)("N19") {
+            let op = match b.op {
+                syn::BinOp::BitXorAssign(_) => Some("^"),
+                syn::BinOp::BitAndAssign(_) => Some("&"),
+                syn::BinOp::BitOrAssign(_) => Some("|"),
+                syn::BinOp::AddAssign(_) => Some("+"),
+                syn::BinOp::SubAssign(_) => Some("-"),
+                _ => None,
+            };
+            if let (Some(op), syn::Expr::Index(_)) = (op, &*b.left) {
+                if !has_side_effect_syntax(&b.left) {
+                    let l = self.t(b.left.span()).to_string();
+                    let r = self.t(b.right.span()).to_string();
+                    let (s, e) = br(b.span());
+                    self.push(s, e, format!("{} = {} {} ({})", l, l, op, r), "N19");
+                    return;
+                }
+            }
+        }
         if !self.eq_sites.is_empty() && (self.on)("N17") {
             let neg = match b.op { syn::BinOp::Eq(_) => Some(false), syn::BinOp::Ne(_) => Some(true), _ => None };
             if let Some(neg) = neg {
